@@ -856,6 +856,18 @@ class Runner:
                     fail("a refused pop changed the tree")
                 if had is not MISSING and not indexed:
                     fail("pop of a present path gave " + res)
+                # the tree is one of nested mappings: a pop by dotted path is the pop of the level that holds
+                # the last component.  When that level exists and the component is absent, a pop WITH a default
+                # finds nothing to remove and returns the default, at any depth (as `in` and get(path, default)
+                # treat the path: simply absent)
+                if had is MISSING and not indexed and comps and op in ("popn", "popd"):
+                    level = b if len(comps) == 1 else spec_get(b, comps[:-1])
+                    if is_level(level):
+                        dflt = "N" if op == "popn" else show_plain(spec_value(val))
+                        if raised is not None:
+                            fail("pop with a default of an absent entry of an existing level raised %s" % res)
+                        elif res != dflt:
+                            fail("pop with a default of an absent entry gave %s, not the default %s" % (res, dflt))
                 return
             want = spec_del(b, comps)
             if had is MISSING or want is MISSING or after[s] != want:
@@ -926,7 +938,7 @@ KEYS_L = ["rows[3].v", "rows[ 3].v", "rows[10].v", "rows[ 10].v", "rows[-1].v", 
           "rows[ 3]", "rows[  3].v", "rows[03].v", "rows[ 3 ].v", "rows[ -1].v", "rows[- 1].v", "rows[3].q", "n", "a.b",
           "a.x..b", "n.x", "a.b.c", "rows[ 4].w.z.q", "rows", "a"]
 
-KEYS1 = ["a", "a.b", "a.b.c", "a.c.d", "b", ".a", "..a", "...a", ".a.b", "a..b", "a.b..c", "a.x..b", "a.b.c...x",
+KEYS1 = ["a.zz", "a.c.zz", "a.c.d..zz", ".a.c.zz", "a.c.zz..d", "q..a.c.zz", "zz", "a", "a.b", "a.b.c", "a.c.d", "b", ".a", "..a", "...a", ".a.b", "a..b", "a.b..c", "a.x..b", "a.b.c...x",
          "a...a.b", "a.....a.b", "a...b", "a.b...a", "a.", "a..", "a.b..", "a.b...", "a.b.", ".", "..", "", "a.b.c.d....x",
          "l", "l[0]", "l[1]", "l[2]", "l[3]", "l[-1]", "l[-4]", "l[1].x", "l[1].y.z", "l[1].y", "l[2][0]", "l[2][0].w",
          "l[-1][0].w", "l[0].x", "l.x", "l[1][0]", "l[1].", "l[1]..l[0]", "l[1].q..x", "l[1].y.z...x", ".l[0]", "..l[1].x",
